@@ -153,7 +153,7 @@ theorem step_shape (k : Cfg) (st st' : NState) (h : step k st = .next st') :
           exact ⟨rfl, rfl⟩
       · split at h
         · split at h
-          · cases h
+          · split at h <;> cases h
           · split at h <;> cases h
         · split at h
           · cases h
@@ -214,7 +214,7 @@ theorem step_done_ok (k : Cfg) (st : NState) (t : NTree) (nx : Option Tok) (rest
       · split at h
         · rename_i hsemi
           split at h
-          · cases h
+          · split at h <;> cases h
           · rename_i hnest
             have hn0 : st.nesting = 0 := by simpa using hnest
             have hc : st.cur = semi := by simpa using hsemi
@@ -539,7 +539,7 @@ theorem inv_step (k : Cfg) (st st' : NState) (hinv : Inv st) (h : step k st = .n
           simp; omega
       · split at h
         · split at h
-          · cases h
+          · split at h <;> cases h
           · split at h <;> cases h
         · split at h
           · cases h
@@ -1228,8 +1228,9 @@ theorem cellsOf_post (symOk : Char → Bool) (matchc : List (List Char)) (firstL
     try dsimp only
     exact Post.ite (Post.perr _) (Post.ite (Post.perr _) (cellsOf_post symOk matchc firstLen base nchar cs (n + 1)))
 
-theorem readStates_post (symOk : Char → Bool) (r : Nat) (s : RS) : Post (readStates symOk r s) (LeQ s) := by
+theorem readStates_post (symOk : Char → Bool) (r : Nat) (s : RS) (hr : r < s.rows.length) : Post (readStates symOk r s) (LeQ s) := by
   unfold readStates
+  rw [if_neg (by omega)]
   try dsimp only
   have hite : ∀ (x : RS) (c : Bool) (k : Cfg), (if c then { x with cfg := k } else x).rest = x.rest := by
     intro x c k; split <;> rfl
@@ -1276,9 +1277,18 @@ theorem readStates_post (symOk : Char → Bool) (r : Nat) (s : RS) : Post (readS
       try dsimp only
       rw [hite]
       omega
-macro_rules | `(tactic| pbind) => `(tactic| refine Post.bind (readStates_post _ _ _) ?_)
+macro_rules | `(tactic| pbind) => `(tactic| refine Post.bind (readStates_post _ _ _ (by assumption)) ?_)
 
-theorem rowFor_post (i : Nat) (label : List Char) (s : RS) : Post (rowFor i label s) (fun p => p.2.rest = s.rest) := by
+theorem idxOf_bounds {α : Type} (p : α → Bool) : ∀ (l : List α) (k i : Nat), idxOf p l k = some i → k ≤ i ∧ i < k + l.length
+  | [], k, i, h => by simp [idxOf] at h
+  | a :: as, k, i, h => by
+    unfold idxOf at h
+    split at h
+    · simp only [Option.some.injEq] at h; subst h; simp
+    · have := idxOf_bounds p as (k + 1) i h
+      simp only [List.length_cons]; omega
+
+theorem rowFor_post (i : Nat) (label : List Char) (s : RS) : Post (rowFor i label s) (fun p => p.2.rest = s.rest ∧ p.1 < p.2.rows.length) := by
   unfold rowFor
   try dsimp only
   refine Post.bind (Q1 := fun p => p.2.rest = s.rest) ?_ ?_
@@ -1287,8 +1297,10 @@ theorem rowFor_post (i : Nat) (label : List Char) (s : RS) : Post (rowFor i labe
     rcases p with ⟨tx, s1⟩
     try dsimp only at *
     split
-    · exact Post.pure hp
-    · exact Post.pure hp
+    · rename_i r hr
+      have := idxOf_bounds _ s1.rows 0 r hr
+      exact Post.pure ⟨hp, by dsimp only; omega⟩
+    · exact Post.pure ⟨hp, by simp⟩
 macro_rules | `(tactic| pbind) => `(tactic| refine Post.bind (rowFor_post _ _ _) ?_)
 
 theorem matrixRows_post (symOk : Char → Bool) (i nchar : Nat) (s : RS) : Post (matrixRows symOk i nchar s) (LeQ s) := by
@@ -1300,7 +1312,8 @@ theorem matrixRows_post (symOk : Char → Bool) (i nchar : Nat) (s : RS) : Post 
   · refine Post.ite' (fun _ => ?_) (fun hne => ?_)
     · pfin
     · pb
-      rename_i r s3 h3
+      rename_i r s3 h3'
+      obtain ⟨h3, hr3⟩ := h3'
       pb
       rename_i s4 h4
       simp only [LeQ] at h4
@@ -1471,7 +1484,7 @@ theorem charsBlock_post (sy : Syms) (s : RS) : Post (charsBlock sy s) (LeQ s) :=
 theorem getCharMatrix_post (title : Option (List Char)) (s : RS) : Post (getCharMatrix title s) (fun _ => True) := by
   unfold getCharMatrix
   split
-  · exact Post.ite (Post.pure trivial) (Post.perr _)
+  · exact Post.ite (Post.perr _) (Post.pure trivial)
   · dsimp only
     split
     · exact Post.pure trivial
@@ -1738,8 +1751,7 @@ theorem nexus_never_internal (sy : Syms) (text : List Char) (w : String) : readN
   (readNexus_post sy text).1 w
 
 /-- **Declared versus found (NEXUS MATRIX)** — about one call of `parseMatrix` from an arbitrary state (the two guards
-of `matrixCheck`); it is not lifted to the `mats` that `readNexus` finally returns (that needs `mats` invariance of every
-other function of the reader and is not proved).  Whenever `_parse_matrix_statement` returns, NTAX and NCHAR were declared
+of `matrixCheck`); lifted to the `mats` that `readNexus` finally returns by `nexus_result_dims`.  Whenever `_parse_matrix_statement` returns, NTAX and NCHAR were declared
 and positive, and the matrix it has appended has rows of exactly the declared NCHAR — in sequential and in interleaved
 mode, whatever the rows looked like — and no more rows than an NTAX given by the block's own DIMENSIONS statement. -/
 theorem nexus_matrix_dims (sy : Syms) (s s' : RS) (h : parseMatrix sy s = .ok s') :
@@ -2365,6 +2377,251 @@ theorem newick_inv_initial (c : Tok) (rest : List Char) (mp : Mapper) :
     Inv { phase := .lab, f := {}, stack := [], cur := c, rest := rest, nesting := 0, seen := [], mapper := mp, trace := [c] } :=
   inv_mk _ [] 0 (by simp) (by simp [depthAux]) (by simp) (by simp)
 
+end DendroModel.C20
+
+namespace DendroModel.C20.Aux
+open DendroModel DendroModel.C20
+
+/-! ### what happens to `mats`: every function of the reader except `matrixCheck` leaves it alone -/
+theorem iter_inv (b : RS → R (Bool × RS)) (I : RS → Prop) (hb : ∀ s, I s → OkImp (b s) (fun p => I p.2)) :
+    ∀ s, I s → OkImp (iter b s) I :=
+  fun s hi => OkImp.mono (iter_spec b I (fun _ => True) (fun s hs => OkImp.mono (hb s hs) (fun p hp => ⟨hp, fun _ => trivial⟩)) s hi) (fun a h => h.1)
+
+theorem OkImp.of_bind_pure {α : Type} {x : R α} {Q : α → Prop} (h : OkImp (x >>= Pure.pure) Q) : OkImp x Q := by
+  intro a ha
+  apply h a
+  rw [ha]; rfl
+
+theorem ensureMapper_mats (s : RS) : (ensureMapper s).mats = s.mats := by unfold ensureMapper; split <;> rfl
+theorem startTreeList_mats (s : RS) : (startTreeList s).mats = s.mats := by unfold startTreeList; split <;> rfl
+theorem closeMapper_mats (s : RS) : (closeMapper s).mats = s.mats := by unfold closeMapper; split <;> rfl
+theorem restoreNtax_mats (o : Option Nat) (s : RS) : (restoreNtax o s).mats = s.mats := by unfold restoreNtax; split <;> rfl
+
+/-- side condition `Q <state expression>.mats` from a hypothesis `Q s.mats` -/
+macro "mside" : tactic => `(tactic| first
+  | assumption
+  | ((try dsimp only); assumption)
+  | ((try dsimp only); simp only [ensureMapper_mats, startTreeList_mats, closeMapper_mats, restoreNtax_mats]; assumption)
+  | ((try dsimp only); (repeat' split) <;> (first | assumption | ((try dsimp only); assumption) |
+      ((try dsimp only); simp only [ensureMapper_mats, startTreeList_mats, closeMapper_mats, restoreNtax_mats]; assumption))))
+
+syntax "mbind" : tactic
+macro "mfin" : tactic => `(tactic| first
+  | exact OkImp.perr _
+  | (intro _ hh; cases hh; done)
+  | (refine OkImp.pure ?_; mside)
+  | (refine OkImp.ok ?_; mside))
+set_option hygiene false in
+macro "mgen" : tactic => `(tactic| first
+  | (refine OkImp.bind' (Q1 := fun (s' : RS) => Q s'.mats) ?_ (fun s hs => ?_) <;> (try dsimp only at *))
+  | (refine OkImp.bind' (Q1 := fun (p : _ × RS) => Q p.2.mats) ?_ (fun p hp => ?_) <;> (try (rcases p with ⟨_, _⟩)) <;> (try dsimp only at *)))
+set_option hygiene false in
+macro "mstep" : tactic => `(tactic| first
+  | mfin
+  | (mbind; intro p hp; (try (have hprod : p = (p.1, p.2) := rfl; clear hprod; rcases p with ⟨_, _⟩)); (try dsimp only at *))
+  | refine OkImp.ite (fun _ => ?_) (fun _ => ?_)
+  | (refine iter_inv _ (fun x => Q x.mats) (fun s hs => ?_) _ (by mside); (try dsimp only at *))
+  | (refine OkImp.bind' (iter_inv _ (fun x => Q x.mats) (fun s hs => ?_) _ (by mside)) (fun s hs => ?_) <;> (try dsimp only at *))
+  | mgen
+  | (refine OkImp.bind (fun _ => ?_))
+  | split
+  | dsimp only
+  | (refine OkImp.of_bind_pure ?_; mbind; intro p hp; exact OkImp.pure hp))
+macro "mauto" : tactic => `(tactic| repeat' mstep)
+
+theorem nextTok_mats (Q : List (List Nat) → Prop) (s : RS) (h : Q s.mats) : OkImp (nextTok s) (fun p => Q p.2.mats) := by
+  unfold nextTok; mauto
+macro_rules | `(tactic| mbind) => `(tactic| refine OkImp.bind' (nextTok_mats _ _ (by mside)) ?_)
+theorem requireTok_mats (Q : List (List Nat) → Prop) (s : RS) (h : Q s.mats) : OkImp (requireTok s) (fun p => Q p.2.mats) := by
+  unfold requireTok; mauto
+macro_rules | `(tactic| mbind) => `(tactic| refine OkImp.bind' (requireTok_mats _ _ (by mside)) ?_)
+theorem nextUcase_mats (Q : List (List Nat) → Prop) (s : RS) (h : Q s.mats) : OkImp (nextUcase s) (fun p => Q p.2.mats) := by
+  unfold nextUcase; mauto
+macro_rules | `(tactic| mbind) => `(tactic| refine OkImp.bind' (nextUcase_mats _ _ (by mside)) ?_)
+theorem requireUcase_mats (Q : List (List Nat) → Prop) (s : RS) (h : Q s.mats) : OkImp (requireUcase s) (fun p => Q p.2.mats) := by
+  unfold requireUcase; mauto
+macro_rules | `(tactic| mbind) => `(tactic| refine OkImp.bind' (requireUcase_mats _ _ (by mside)) ?_)
+theorem skipToSemi_mats (Q : List (List Nat) → Prop) (s : RS) (h : Q s.mats) : OkImp (skipToSemi s) (fun s' => Q s'.mats) := by
+  unfold skipToSemi; mauto
+macro_rules | `(tactic| mbind) => `(tactic| refine OkImp.bind' (skipToSemi_mats _ _ (by mside)) ?_)
+theorem parseTitle_mats (Q : List (List Nat) → Prop) (s : RS) (h : Q s.mats) : OkImp (parseTitle s) (fun s' => Q s'.mats) := by
+  unfold parseTitle; mauto
+macro_rules | `(tactic| mbind) => `(tactic| refine OkImp.bind' (parseTitle_mats _ _ (by mside)) ?_)
+theorem consumeToEnd_mats (Q : List (List Nat) → Prop) (t : Option (List Char)) (s : RS) (h : Q s.mats) : OkImp (consumeToEnd t s) (fun s' => Q s'.mats) := by
+  unfold consumeToEnd; mauto
+macro_rules | `(tactic| mbind) => `(tactic| refine OkImp.bind' (consumeToEnd_mats _ _ _ (by mside)) ?_)
+theorem parseDimensions_mats (Q : List (List Nat) → Prop) (s : RS) (h : Q s.mats) : OkImp (parseDimensions s) (fun s' => Q s'.mats) := by
+  unfold parseDimensions; mauto
+macro_rules | `(tactic| mbind) => `(tactic| refine OkImp.bind' (parseDimensions_mats _ _ (by mside)) ?_)
+theorem parseTaxlabels_mats (Q : List (List Nat) → Prop) (i : Nat) (s : RS) (h : Q s.mats) : OkImp (parseTaxlabels i s) (fun s' => Q s'.mats) := by
+  unfold parseTaxlabels; mauto
+macro_rules | `(tactic| mbind) => `(tactic| refine OkImp.bind' (parseTaxlabels_mats _ _ _ (by mside)) ?_)
+theorem parseLink_mats (Q : List (List Nat) → Prop) (s : RS) (h : Q s.mats) : OkImp (parseLink s) (fun s' => Q s'.mats) := by
+  unfold parseLink; mauto
+macro_rules | `(tactic| mbind) => `(tactic| refine OkImp.bind' (parseLink_mats _ _ (by mside)) ?_)
+theorem getTns_mats (Q : List (List Nat) → Prop) (t : Option (List Char)) (s : RS) (h : Q s.mats) : OkImp (getTns t s) (fun p => Q p.2.mats) := by
+  unfold getTns; mauto
+macro_rules | `(tactic| mbind) => `(tactic| refine OkImp.bind' (getTns_mats _ _ _ (by mside)) ?_)
+theorem taxaBlock_mats (Q : List (List Nat) → Prop) (s : RS) (h : Q s.mats) : OkImp (taxaBlock s) (fun s' => Q s'.mats) := by
+  unfold taxaBlock; mauto
+macro_rules | `(tactic| mbind) => `(tactic| refine OkImp.bind' (taxaBlock_mats _ _ (by mside)) ?_)
+theorem ensureNs_mats (Q : List (List Nat) → Prop) (s : RS) (h : Q s.mats) : OkImp (ensureNs s) (fun s' => Q s'.mats) := by
+  unfold ensureNs; mauto
+macro_rules | `(tactic| mbind) => `(tactic| refine OkImp.bind' (ensureNs_mats _ _ (by mside)) ?_)
+
+theorem parseTranslate_mats (Q : List (List Nat) → Prop) (s : RS) (h : Q s.mats) : OkImp (parseTranslate s) (fun s' => Q s'.mats) := by
+  unfold parseTranslate; mauto
+macro_rules | `(tactic| mbind) => `(tactic| refine OkImp.bind' (parseTranslate_mats _ _ (by mside)) ?_)
+theorem parseTreeStatement_mats (Q : List (List Nat) → Prop) (s : RS) (h : Q s.mats) : OkImp (parseTreeStatement s) (fun s' => Q s'.mats) := by
+  unfold parseTreeStatement; mauto
+macro_rules | `(tactic| mbind) => `(tactic| refine OkImp.bind' (parseTreeStatement_mats _ _ (by mside)) ?_)
+theorem treesBlock_mats (Q : List (List Nat) → Prop) (s : RS) (h : Q s.mats) : OkImp (treesBlock s) (fun s' => Q s'.mats) := by
+  unfold treesBlock; mauto
+macro_rules | `(tactic| mbind) => `(tactic| refine OkImp.bind' (treesBlock_mats _ _ (by mside)) ?_)
+theorem fmtDatatype_mats (Q : List (List Nat) → Prop) (s : RS) (h : Q s.mats) : OkImp (fmtDatatype s) (fun p => Q p.2.mats) := by
+  unfold fmtDatatype; mauto
+macro_rules | `(tactic| mbind) => `(tactic| refine OkImp.bind' (fmtDatatype_mats _ _ (by mside)) ?_)
+theorem fmtSymbolsLoop_mats (Q : List (List Nat) → Prop) (s : RS) (h : Q s.mats) : OkImp (fmtSymbolsLoop s) (fun s' => Q s'.mats) := by
+  unfold fmtSymbolsLoop; mauto
+macro_rules | `(tactic| mbind) => `(tactic| refine OkImp.bind' (fmtSymbolsLoop_mats _ _ (by mside)) ?_)
+theorem fmtSymbols_mats (Q : List (List Nat) → Prop) (s : RS) (h : Q s.mats) : OkImp (fmtSymbols s) (fun p => Q p.2.mats) := by
+  unfold fmtSymbols; mauto
+macro_rules | `(tactic| mbind) => `(tactic| refine OkImp.bind' (fmtSymbols_mats _ _ (by mside)) ?_)
+theorem fmtAssign_mats (Q : List (List Nat) → Prop) (f : Nat) (s : RS) (h : Q s.mats) : OkImp (fmtAssign f s) (fun p => Q p.2.mats) := by
+  unfold fmtAssign; mauto
+macro_rules | `(tactic| mbind) => `(tactic| refine OkImp.bind' (fmtAssign_mats _ _ _ (by mside)) ?_)
+theorem fmtInterleave_mats (Q : List (List Nat) → Prop) (s : RS) (h : Q s.mats) : OkImp (fmtInterleave s) (fun p => Q p.2.mats) := by
+  unfold fmtInterleave; mauto
+macro_rules | `(tactic| mbind) => `(tactic| refine OkImp.bind' (fmtInterleave_mats _ _ (by mside)) ?_)
+theorem parseFormat_mats (Q : List (List Nat) → Prop) (s : RS) (h : Q s.mats) : OkImp (parseFormat s) (fun s' => Q s'.mats) := by
+  unfold parseFormat; mauto
+macro_rules | `(tactic| mbind) => `(tactic| refine OkImp.bind' (parseFormat_mats _ _ (by mside)) ?_)
+theorem readStates_mats (Q : List (List Nat) → Prop) (symOk : Char → Bool) (r : Nat) (s : RS) (h : Q s.mats) : OkImp (readStates symOk r s) (fun s' => Q s'.mats) := by
+  unfold readStates; mauto
+macro_rules | `(tactic| mbind) => `(tactic| refine OkImp.bind' (readStates_mats _ _ _ _ (by mside)) ?_)
+theorem rowFor_mats (Q : List (List Nat) → Prop) (i : Nat) (label : List Char) (s : RS) (h : Q s.mats) : OkImp (rowFor i label s) (fun p => Q p.2.mats) := by
+  unfold rowFor; mauto
+macro_rules | `(tactic| mbind) => `(tactic| refine OkImp.bind' (rowFor_mats _ _ _ _ (by mside)) ?_)
+theorem matrixRows_mats (Q : List (List Nat) → Prop) (symOk : Char → Bool) (i nchar : Nat) (s : RS) (h : Q s.mats) : OkImp (matrixRows symOk i nchar s) (fun s' => Q s'.mats) := by
+  unfold matrixRows; mauto
+macro_rules | `(tactic| mbind) => `(tactic| refine OkImp.bind' (matrixRows_mats _ _ _ _ _ (by mside)) ?_)
+theorem positionsRange_mats (Q : List (List Nat) → Prop) (start max : Nat) (s : RS) (h : Q s.mats) : OkImp (positionsRange start max s) (fun p => Q p.2.mats) := by
+  unfold positionsRange; mauto
+macro_rules | `(tactic| mbind) => `(tactic| refine OkImp.bind' (positionsRange_mats _ _ _ _ (by mside)) ?_)
+theorem parsePositions_mats (Q : List (List Nat) → Prop) (s : RS) (h : Q s.mats) : OkImp (parsePositions s) (fun s' => Q s'.mats) := by
+  unfold parsePositions; mauto
+macro_rules | `(tactic| mbind) => `(tactic| refine OkImp.bind' (parsePositions_mats _ _ (by mside)) ?_)
+theorem parseCharset_mats (Q : List (List Nat) → Prop) (s : RS) (h : Q s.mats) : OkImp (parseCharset s) (fun s' => Q s'.mats) := by
+  unfold parseCharset; mauto
+macro_rules | `(tactic| mbind) => `(tactic| refine OkImp.bind' (parseCharset_mats _ _ (by mside)) ?_)
+theorem setsBlock_mats (Q : List (List Nat) → Prop) (s : RS) (h : Q s.mats) : OkImp (setsBlock s) (fun s' => Q s'.mats) := by
+  unfold setsBlock; mauto
+macro_rules | `(tactic| mbind) => `(tactic| refine OkImp.bind' (setsBlock_mats _ _ (by mside)) ?_)
+theorem skipToBegin_mats (Q : List (List Nat) → Prop) (s : RS) (h : Q s.mats) : OkImp (skipToBegin s) (fun s' => Q s'.mats) := by
+  unfold skipToBegin; mauto
+macro_rules | `(tactic| mbind) => `(tactic| refine OkImp.bind' (skipToBegin_mats _ _ (by mside)) ?_)
+
+/-- every matrix is rectangular with a positive width -/
+def GoodMats (m : List (List Nat)) : Prop := ∀ row ∈ m, ∃ c, 0 < c ∧ ∀ x ∈ row, x = c
+
+theorem matrixCheck_good (nchar : Nat) (s : RS) (hpos : 0 < nchar) (h : GoodMats s.mats) :
+    OkImp (matrixCheck nchar s) (fun s' => GoodMats s'.mats) := by
+  intro s' hs'
+  obtain ⟨_, hm, hall, _, _⟩ := (matrixCheck_post nchar s).2 s' hs'
+  intro row hrow
+  rw [hm] at hrow
+  rcases List.mem_append.mp hrow with h1 | h1
+  · exact h row h1
+  · simp only [List.mem_singleton] at h1
+    subst h1
+    exact ⟨nchar, hpos, hall⟩
+
+theorem getTns_pres (t : Option (List Char)) (s : RS) : OkImp (getTns t s) (fun p => p.2.mats = s.mats ∧ p.2.nchar = s.nchar) := by
+  unfold getTns
+  split
+  · split
+    · exact OkImp.pure ⟨rfl, rfl⟩
+    · split
+      · exact OkImp.pure ⟨rfl, rfl⟩
+      · exact OkImp.perr _
+  · dsimp only
+    split
+    · exact OkImp.pure ⟨rfl, rfl⟩
+    · exact OkImp.perr _
+
+theorem parseMatrix_good (sy : Syms) (s : RS) (h : GoodMats s.mats) : OkImp (parseMatrix sy s) (fun s' => GoodMats s'.mats) := by
+  unfold parseMatrix
+  refine OkImp.ite (fun _ => OkImp.perr _) (fun hz => ?_)
+  have hpos : 0 < s.nchar.getD 0 := by
+    simp only [Bool.or_eq_true, beq_iff_eq, not_or] at hz
+    omega
+  refine OkImp.bind' (getTns_pres _ s) ?_
+  rintro ⟨i, s1⟩ ⟨hm1, hn1⟩
+  try dsimp only at hm1 hn1 ⊢
+  refine OkImp.bind (fun symOk => ?_)
+  refine OkImp.bind' (nextTok_mats GoodMats _ (by dsimp only; rw [hm1]; exact h)) ?_
+  rintro ⟨t2, s2⟩ h2
+  try dsimp only at h2 ⊢
+  refine OkImp.bind' (matrixRows_mats GoodMats _ _ _ _ (by dsimp only; exact h2)) ?_
+  intro s3 h3
+  refine matrixCheck_good _ s3 ?_ h3
+  rw [hn1]; exact hpos
+
+set_option hygiene false in
+macro_rules | `(tactic| mbind) => `(tactic| refine OkImp.bind' (hm _ _ (by mside)) ?_)
+
+theorem charsBlock_mats (Q : List (List Nat) → Prop) (hm : ∀ sy s, Q s.mats → OkImp (parseMatrix sy s) (fun s' => Q s'.mats))
+    (sy : Syms) (s : RS) (h : Q s.mats) : OkImp (charsBlock sy s) (fun s' => Q s'.mats) := by
+  unfold charsBlock; mauto
+
+theorem readBlock_mats (Q : List (List Nat) → Prop) (hm : ∀ sy s, Q s.mats → OkImp (parseMatrix sy s) (fun s' => Q s'.mats))
+    (sy : Syms) (s : RS) (h : Q s.mats) : OkImp (readBlock sy s) (fun s' => Q s'.mats) := by
+  unfold readBlock
+  refine OkImp.bind' (skipToBegin_mats Q s h) ?_
+  intro s1 h1
+  refine OkImp.bind' (nextUcase_mats Q s1 h1) ?_
+  rintro ⟨t, s2⟩ h2
+  try dsimp only at h2 ⊢
+  refine OkImp.ite (fun _ => taxaBlock_mats Q _ (by mside)) (fun _ => ?_)
+  refine OkImp.ite (fun _ => charsBlock_mats Q hm sy _ (by mside)) (fun _ => ?_)
+  refine OkImp.ite (fun _ => treesBlock_mats Q _ (by mside)) (fun _ => ?_)
+  refine OkImp.ite (fun _ => setsBlock_mats Q _ (by mside)) (fun _ => ?_)
+  refine OkImp.ite (fun _ => OkImp.perr _) (fun _ => consumeToEnd_mats Q _ _ (by mside))
+
+theorem readNexus_good (sy : Syms) (text : List Char) : OkImp (readNexus sy text) (fun s => GoodMats s.mats) := by
+  have hm : ∀ sy s, GoodMats s.mats → OkImp (parseMatrix sy s) (fun s' => GoodMats s'.mats) := parseMatrix_good
+  have h0 : GoodMats ({ rest := text } : RS).mats := by intro row hrow; cases hrow
+  unfold readNexus
+  refine OkImp.bind' (nextTok_mats GoodMats _ h0) ?_
+  rintro ⟨t, s1⟩ h1
+  try dsimp only at h1 ⊢
+  split
+  · exact OkImp.perr _
+  · refine OkImp.ite (fun _ => OkImp.perr _) (fun _ => ?_)
+    refine iter_inv _ (fun x => GoodMats x.mats) ?_ s1 h1
+    intro s2 h2
+    refine OkImp.ite (fun _ => OkImp.pure h2) (fun _ => ?_)
+    refine OkImp.bind' (readBlock_mats GoodMats hm sy s2 h2) ?_
+    intro s3 h3
+    exact OkImp.pure h3
+
+
+end DendroModel.C20.Aux
+
+namespace DendroModel.C20
+open DendroModel DendroModel.C20.Aux
+
+/-- **Declared versus found, for what the NEXUS reader finally returns.**  In every successful result of `readNexus` —
+for every text and symbol table — every matrix (`mats`, the row lengths the driver prints) is rectangular and its
+width is positive: all rows have one and the same positive number of cells (the NCHAR in force at its MATRIX statement,
+by `nexus_matrix_dims`).  Proof: `matrixCheck` is the only function of the reader that touches `mats` (invariance of
+`mats` under all other functions, threaded through every loop), and it only appends matrices that passed the
+declared-versus-found check.  (A bound of the row count by NTAX is not part of the result: since the row-count check
+uses only the NTAX of the block's own DIMENSIONS statement, it is stated per MATRIX statement in `nexus_matrix_dims`.) -/
+theorem nexus_result_dims (sy : Syms) (text : List Char) (s : RS) (h : readNexus sy text = .ok s) :
+    ∀ row ∈ s.mats, ∃ c, 0 < c ∧ ∀ x ∈ row, x = c :=
+  readNexus_good sy text s h
+
 /-! ### bounded work -/
 
 /-- the number of machine steps `run` takes from a state (a ghost counter over the driver's own `step`) -/
@@ -2472,11 +2729,27 @@ theorem eof_is_parse_error (sy : Syms) (sym : Char → Bool) (strict interleaved
     | err e => exact Or.inr ⟨e, rfl⟩
     | internal w => exact absurd h (fasta_never_internal sym _ w)
 
+/-- **The row a MATRIX line refers to always exists.**  `_get_taxon` + `char_block[taxon]` (`rowFor`) returns a position
+inside `rows`; `readStates` reports `internal` (the model's `IndexError`) for a position outside, and by
+`nexus_never_internal` that never happens in `readNexus`. -/
+theorem rowFor_in_range (i : Nat) (label : List Char) (s s' : RS) (r : Nat) (h : rowFor i label s = .ok (r, s')) :
+    r < s'.rows.length ∧ s'.rest = s.rest :=
+  ⟨((rowFor_post i label s).2 (r, s') h).2, ((rowFor_post i label s).2 (r, s') h).1⟩
+
 /-! ### non-vacuity: the hypotheses of the theorems above are satisfiable -/
 
 theorem nextT_semi : nextT {} [';'] = .tok [';'] false [] := by
   rw [nextT]
   simp [skipWs, Cfg.unc, Cfg.cap, Tables.tokUncaptured, Tables.tokCaptured, isEol]
+
+/-- `rowFor_in_range`: a row label of a declared taxon gets its (new) row -/
+example : ∃ p, rowFor 0 ['A'] { rest := [], ntax := some 1, tns := [{ title := none, labels := [['A']] }] } = .ok p ∧ p.1 = 0 ∧ p.2.rows = [(0, 0)] :=
+  ⟨_, rfl, rfl, rfl⟩
+
+/-- `nexus_result_dims` / `nexus_matrix_dims`: the step that appends a matrix accepts a rectangular one … -/
+example : ∃ s', matrixCheck 2 { rest := [], rows := [(0, 2), (1, 2)] } = .ok s' ∧ s'.mats = [[2, 2]] := ⟨_, rfl, rfl⟩
+/-- … and rejects a ragged one -/
+example : matrixCheck 2 { rest := [], rows := [(0, 2), (1, 1)] } = perr .nexus := rfl
 
 /-- `statement_needs_semicolon`: a DIMENSIONS statement that is complete (`;`) is accepted by the model -/
 example : (parseDimensions { rest := [';'] }).isOk = true := by
